@@ -25,6 +25,7 @@ class Block:
         self.header = header
         self.handlers = []   # (start, end, envcount)
         self.ins = []        # (pc, next, opbyte, name, debug)
+        self.bindings = []   # names
         self.name = header.get("name", "")
 
 
@@ -43,6 +44,8 @@ def parse_dump(lines):
             blocks.append(cur)
         elif cur is None:
             continue
+        elif p[0] == "binding":
+            cur.bindings.append(p[-1])
         elif p[0] == "handler":
             cur.handlers.append((int(p[2]), int(p[3]), int(p[4])))
         elif p[0] == "ins":
